@@ -27,7 +27,7 @@ RULE = ('seeded TT tensors / TT matrices (random, over-parameterised x+x and x+0
         '= round() calls; distinct by (class, order, kind, dtype, eps class, rmax kind, plan kind)')
 ASSUMPTIONS = ['inputs are sampled; the exhaustively enumerated dimension is the set of single primary-SVD failures of each call',
                'numpy.linalg.svd is a correct SVD',
-               'fault vs fault-free agreement is asserted only for generic (tie-free) spectra, with a tolerance scaled by ||x||/gap at the truncation points, and skipped where that gap (less twice the truncation error) is below 1e-3*||x||']
+               'fault vs fault-free agreement is asserted only for generic (tie-free) spectra, with a tolerance scaled by ||x||/gap at the truncation points, and skipped where that gap (less twice the truncation error) is below 1e-3*||x|| or where the two runs chose different ranks (both satisfy the contract then)']
 REAL = ['TT.round, round_tt, lr_orthogonal, rank_chop, SVD wrapper (working tree)', 'torch.linalg.svd/qr', 'numpy.linalg.svd']
 STUB = ['the failure of torch.linalg.svd']
 
@@ -370,6 +370,9 @@ def exec_case(p, res, plans=None, rng=None):
                 out.append(core.violation(PROP, 'FAULT-CONTRACT', 'round', cf[0], 'under plan %s: %s' % (plan, cf[1]), desc))
             continue
         if generic and c is None and p['cls'] not in ('scaled', 'gauge', 'zero'):
+            if gen.ints(yf.R) != gen.ints(y0.R):
+                core.bump(stats, 'probe.agree_skipped_rank_decision_differs')     # see c01: a threshold decision flipped
+                continue
             verdict, dd, tol = svdfault.agree_conditioned(gen.dense(yf), full0, gen.fro(ref), p['dt'], ref, gen.ints(x.N), gen.ints(x.M) if x.is_ttm else None,
                                                           gen.ints(y0.R), gen.fro(full0 - ref))
             if verdict == 'ill-conditioned':
